@@ -9,14 +9,14 @@ One event = one atomic action of the real code:
   callbacks it made (`cbin ctor k d`, logged inside the critical section) and `ret`;
 * per started goroutine `execute` (an *instance*): `proceed` / `bail` (the first select with the
   `<-waitCh` of its `ctx.Done()` branch, resp. the `ctx.Err()` test, routine.go:106-116; which branch
-  the select commits to is not observable before the predecessor's channel is closed, so the two
-  steps "took `ctx.Done()`" and "`<-waitCh` returned" are one event), `cbin run` / `cbout` (the routine function, harness-controlled),
+  the select commits to is not observable before the predecessor's channel is closed, so "took
+  `ctx.Done()`", "`<-waitCh` returned" and the following `cancel(); close(exitedCh)` are one event), `cbin run` / `cbout` (the routine function, harness-controlled),
   `closeExit` (`cancel(); close(exitedCh)`), `record` (the final critical section, 125-157);
 * `timerRemove k` / `timerRetry k` (the `time.AfterFunc` callbacks), `advance` (new time epoch),
   `quiesce` (nothing left to do), `probe` (harness reads `ctx.Err()` inside a running instance).
 
-Representation. Keys are `Nat`s; the map `routines` is a function `Nat → Option Rec` together with a
-bound `kbound` on the keys ever inserted (so that it can be enumerated). Instances are grouped by
+Representation. Keys are `Nat`s; the map `routines` is a
+list indexed by the key (`look`/`put`). Instances are grouped by
 *generation* (`G`): a new generation starts when a record is created for a key that is not in the map
 (`SetKey`/`SyncKeys`/`AddKeyRef`); `ResetRoutine` creates a new record in the *same* generation (it
 carries `prevExitedCh` over). The field `r.exitedCh` of the code is `G.last` (the only record of a
@@ -139,13 +139,19 @@ inductive Outcome where
   | ok | err | canceled
 deriving DecidableEq, Repr
 
+/-- finite maps from keys (small `Nat`s) as lists indexed by the key -/
+def look {α : Type} (l : List (Option α)) (k : Nat) : Option α := (l[k]?).join
+
+def put {α : Type} (l : List (Option α)) (k : Nat) (v : Option α) : List (Option α) :=
+  (l ++ List.replicate (k + 1 - l.length) none).set k v
+
 structure St where
   cfg : Option Cfg := none
   ctx : Option Nat := none
-  keys : Nat → Option Rec := fun _ => none
+  /-- `k.routines` -/
+  keys : List (Option Rec) := []
   /-- constructor calls per key so far -/
-  nctor : Nat → Nat := fun _ => 0
-  kbound : Nat := 0
+  nctor : List (Option Nat) := []
   gens : List G := []
   nrec : Nat := 0
   epoch : Nat := 0
@@ -153,18 +159,15 @@ structure St where
   /-- harness run id ↦ (generation, instance) -/
   runs : List (Nat × Nat) := []
   call : Call := .idle
+deriving DecidableEq, Repr
 
-instance : BEq St where
-  beq a b :=
-    a.cfg == b.cfg && a.ctx == b.ctx && a.kbound == b.kbound && a.gens == b.gens &&
-    a.nrec == b.nrec && a.epoch == b.epoch && a.refs == b.refs && a.runs == b.runs &&
-    a.call == b.call &&
-    (List.range a.kbound).all fun k => a.keys k == b.keys k && a.nctor k == b.nctor k
+def St.key (s : St) (k : Nat) : Option Rec := look s.keys k
+def St.ctors (s : St) (k : Nat) : Nat := (look s.nctor k).getD 0
+def St.kbound (s : St) : Nat := s.keys.length
 
 /-! ## primitive updates -/
 
-def setRec (s : St) (k : Nat) (r : Option Rec) : St :=
-  { s with keys := fun k' => if k' = k then r else s.keys k' }
+def setRec (s : St) (k : Nat) (r : Option Rec) : St := { s with keys := put s.keys k r }
 
 def modG (s : St) (g : Nat) (f : G → G) : St := { s with gens := s.gens.modify g f }
 
@@ -212,18 +215,17 @@ def start (s : St) (k : Nat) (r : Rec) (force : Bool) : St :=
 
 /-- start the record currently stored for `k`, if there is a context -/
 def startKey (s : St) (k : Nat) (force : Bool) : St :=
-  match s.ctx, s.keys k with
+  match s.ctx, s.key k with
   | some _, some r => start s k r force
   | _, _ => s
 
 /-- `ctorCb(key)` + `newRunningRoutine` + `k.routines[key] = v`; `gen` is the generation the new
 record belongs to -/
 def newRec (s : St) (k gen : Nat) : St :=
-  let d := s.nctor k + 1
-  { s with keys := fun k' => if k' = k then some { id := s.nrec, gen := gen, data := d } else s.keys k'
-           nctor := fun k' => if k' = k then d else s.nctor k'
-           nrec := s.nrec + 1
-           kbound := max s.kbound (k + 1) }
+  let d := s.ctors k + 1
+  { s with keys := put s.keys k (some { id := s.nrec, gen := gen, data := d })
+           nctor := put s.nctor k (some d)
+           nrec := s.nrec + 1 }
 
 /-- a key that is not in the map gets a record of a fresh generation -/
 def createKey (s : St) (k : Nat) : St :=
@@ -245,16 +247,16 @@ def remove (s : St) (k : Nat) (r : Rec) : St :=
   else setRec s k (some { r with deferRemove := some s.epoch })
 
 def removeKey (s : St) (k : Nat) : St × Bool :=
-  match s.keys k with
+  match s.key k with
   | some r => (remove s k r, true)
   | none => (s, false)
 
 /-- `SetKey` (keyed.go:160-183); returns the state, the constructor calls made, data, existed -/
 def setKey (s : St) (k : Nat) (st : Bool) : St × List (Nat × Nat) × Nat × Bool :=
-  match s.keys k with
+  match s.key k with
   | none =>
     let s1 := createKey s k
-    (startKey s1 k false, [(k, s.nctor k + 1)], s.nctor k + 1, false)
+    (startKey s1 k false, [(k, s.ctors k + 1)], s.ctors k + 1, false)
   | some r =>
     let s1 := setRec s k (some { r with deferRemove := none })
     (if st then startKey s1 k false else s1, [], r.data, true)
@@ -262,10 +264,10 @@ def setKey (s : St) (k : Nat) (st : Bool) : St × List (Nat × Nat) × Nat × Bo
 /-- first loop of `SyncKeys` for one (not yet processed) key -/
 def syncOne (restart : Bool) (acc : St × List (Nat × Nat)) (k : Nat) : St × List (Nat × Nat) :=
   let s := acc.1
-  match s.keys k with
+  match s.key k with
   | none =>
     let s1 := createKey s k
-    (startKey s1 k false, acc.2 ++ [(k, s.nctor k + 1)])
+    (startKey s1 k false, acc.2 ++ [(k, s.ctors k + 1)])
   | some r =>
     let s1 := setRec s k (some { r with deferRemove := none })
     (if restart then startKey s1 k false else s1, acc.2)
@@ -273,7 +275,7 @@ def syncOne (restart : Bool) (acc : St × List (Nat × Nat)) (k : Nat) : St × L
 def removeAbsent (ks : List Nat) (s : St) (k : Nat) : St :=
   if ks.contains k then s else (removeKey s k).1
 
-def present (s : St) (k : Nat) : Bool := (s.keys k).isSome
+def present (s : St) (k : Nat) : Bool := (s.key k).isSome
 
 def keyList (s : St) : List Nat := (List.range s.kbound).filter (present s)
 
@@ -287,7 +289,7 @@ def syncKeys (s : St) (ks : List Nat) (restart : Bool) : St × List (Nat × Nat)
 
 /-- `setContextLocked` for one key (keyed.go:98-112) -/
 def setCtxOne (same restart : Bool) (s : St) (k : Nat) : St :=
-  match s.keys k with
+  match s.key k with
   | none => s
   | some r =>
     if same && !r.err then s
@@ -303,15 +305,15 @@ def setContext (s : St) (c : Option Nat) (restart : Bool) : St :=
 
 /-- `resetRoutineLocked` without conditions (keyed.go:300-336) -/
 def resetKey (s : St) (k : Nat) : St × List (Nat × Nat) × Bool :=
-  match s.keys k with
+  match s.key k with
   | none => (s, [], false)
   | some r =>
     let s1 := newRec (cancelOpt s r.gen r.cancelOf) k r.gen
-    (startKey s1 k false, [(k, s.nctor k + 1)], true)
+    (startKey s1 k false, [(k, s.ctors k + 1)], true)
 
 /-- `restartRoutineLocked` without conditions (keyed.go:370-404); returns (existed, reset) -/
 def restartKey (s : St) (k : Nat) : St × Bool × Bool :=
-  match s.keys k with
+  match s.key k with
   | none => (s, false, false)
   | some r =>
     match s.ctx with
@@ -360,12 +362,12 @@ def execOp (s : St) : Op → St × List (Nat × Nat) × Res
   | .removeKey k => let r := removeKey s k; (r.1, [], .bool r.2)
   | .syncKeys ks restart => let r := syncKeys s ks restart; (r.1, r.2.1, .sync r.2.2.1 r.2.2.2)
   | .getKey k =>
-    match s.keys k with
+    match s.key k with
     | some r => (s, [], .dataExisted r.data true)
     | none => (s, [], .dataExisted 0 false)
   | .getKeys => (s, [], .keys (keyList s))
   | .getKeysWithData =>
-    (s, [], .keysData ((keyList s).filterMap fun k => (s.keys k).map fun r => (k, r.data)))
+    (s, [], .keysData ((keyList s).filterMap fun k => (s.key k).map fun r => (k, r.data)))
   | .resetRoutine k => let r := resetKey s k; (r.1, r.2.1, .existedReset r.2.2 r.2.2)
   | .restartRoutine k => let r := restartKey s k; (r.1, [], .existedReset r.2.1 r.2.2)
   | .resetAll =>
@@ -393,7 +395,7 @@ def dueOpt (s : St) : Option Nat → Bool
 
 /-- no armed timer of a record in the map is due (the previous `advance` sleep let them all fire) -/
 def noDue (s : St) : Bool :=
-  (List.range s.kbound).all fun k => match s.keys k with
+  (List.range s.kbound).all fun k => match s.key k with
     | some r => !dueOpt s r.deferRemove && !dueOpt s r.deferRetry
     | none => true
 
@@ -407,7 +409,7 @@ def retryCfg (s : St) : Option Nat :=
 /-- the final critical section of `execute` (routine.go:125-157) for instance `i` of generation `g` -/
 def recordInst (s : St) (g i : Nat) (x : Inst) (k : Nat) : St :=
   let s0 := modInst s g i fun y => { y with st := .recorded }
-  match s.keys k with
+  match s.key k with
   | some r =>
     if r.id = x.rid ∧ r.cur = some i then
       let r1 := { r with err := x.failed, success := !x.failed, exited := true }
@@ -420,6 +422,22 @@ def recordInst (s : St) (g i : Nat) (x : Inst) (k : Nat) : St :=
       setRec (modG s0 g fun y => { y with last := none }) k (some r2)
     else s0
   | none => s0
+
+/-- is instance `i` (= `x`, of generation `y`) the one its record in the map currently runs
+(`r.ctx == ctx` for the `r` stored under the key) -/
+def isCurrent (s : St) (y : G) (i : Nat) (x : Inst) : Bool :=
+  match s.key y.key with
+  | some r => r.id == x.rid && r.cur == some i
+  | none => false
+
+/-- state after `cancel(); close(exitedCh)`: the final critical section of an instance that is no
+longer current finds `r.ctx != ctx` (and stays so: `r.ctx` is never set back to an old context), or
+works on a record that is no longer in the map: it does nothing, so it is not an event -/
+def afterClose (s : St) (y : G) (i : Nat) (x : Inst) : IS :=
+  if isCurrent s y i x then .closed else .recorded
+
+/-- the epoch of return is only ever read by the `record` of a current instance -/
+def retEp (s : St) (y : G) (i : Nat) (x : Inst) : Nat := if isCurrent s y i x then s.epoch else 0
 
 /-- can instance `x` of generation `y` take an internal step right now -/
 def instBusy (y : G) (x : Inst) : Bool :=
@@ -514,7 +532,7 @@ def step (s : St) : Ev → Option St
       then some { x with st := .entered } else none
   | .bail g i => instStep s g i fun y x =>
       if x.st = .waiting ∧ x.cancelled ∧ chClosed y x.waitOn
-      then some { x with st := .returned, failed := true, retEpoch := s.epoch } else none
+      then some { x with st := afterClose s y i x, failed := true, retEpoch := retEp s y i x } else none
   | .cbin j g i k d =>
     if j = s.runs.length then
       match s.gens[g]? with
@@ -530,11 +548,11 @@ def step (s : St) : Ev → Option St
   | .cbout j o =>
     match s.runs[j]? with
     | none => none
-    | some (g, i) => instStep s g i fun _ x =>
+    | some (g, i) => instStep s g i fun y x =>
         if x.st = .running ∧ (o = .canceled → x.cancelled = true)
-        then some { x with st := .returned, failed := o ≠ .ok, retEpoch := s.epoch } else none
-  | .closeExit g i => instStep s g i fun _ x =>
-      if x.st = .returned then some { x with st := .closed, cancelled := true } else none
+        then some { x with st := .returned, failed := o ≠ .ok, retEpoch := retEp s y i x } else none
+  | .closeExit g i => instStep s g i fun y x =>
+      if x.st = .returned then some { x with st := afterClose s y i x, cancelled := true } else none
   | .record g i =>
     match s.gens[g]? with
     | none => none
@@ -543,11 +561,11 @@ def step (s : St) : Ev → Option St
       | none => none
       | some x => if x.st = .closed then some (recordInst s g i x y.key) else none
   | .timerRemove k =>
-    match s.keys k with
+    match s.key k with
     | some r => if dueOpt s r.deferRemove then some (removeNow s k r) else none
     | none => none
   | .timerRetry k =>
-    match s.keys k with
+    match s.key k with
     | some r =>
       if dueOpt s r.deferRetry then
         let s1 := setRec s k (some { r with deferRetry := none })
